@@ -354,9 +354,66 @@ def coll_suite(ctx):
     ctx.suite("collection", cases=len(cases), agree=agree, mismatch=mism, property_false=bad, fragile_skipped=0)
 
 
+def run_mutation_case(members, idx, new_ts):
+    """Members added one by one, iterate, assign a new supply temperature to member idx THROUGH ITS OWN SETTER, iterate again."""
+    from OpenPinch.classes import Stream, StreamCollection
+    objs = [Stream(m["name"], m["attrs"][0], m["attrs"][1], heat_flow=m["attrs"][2]) for m in members]
+    ident = {id(o): i for i, o in enumerate(objs)}
+    c = StreamCollection()
+    for o in objs:
+        c.add(o)
+    first = [ident[id(x)] for x in c]
+    objs[idx].t_supply = new_ts
+    second = [ident[id(x)] for x in c]
+    before = [[o.t_supply, o.t_target, o.heat_flow] for o in objs]
+    return first, second, before
+
+
+def mutation_suite(ctx):
+    """A member's sort attribute assigned while it sits in a collection (interleaving of the two kinds of calls the property quantifies over)."""
+    n = ctx.budget(60, 1500)
+    cases = [([dict(id=0, name="A", attrs=[200.0, 100.0, 10.0]), dict(id=1, name="B", attrs=[150.0, 100.0, 10.0])], 1, 300.0)]   # D60 witness
+    for _ in range(n):
+        k = ctx.rng.randint(2, 5)
+        ts = ctx.rng.sample([20.0, 50.0, 80.0, 120.0, 150.0, 200.0, 260.0], k)
+        ms = [dict(id=i, name=ctx.rng.choice(NAMES), attrs=[ts[i], 10.0, float(ctx.rng.choice([5, 10, 40]))]) for i in range(k)]
+        cases.append((ms, ctx.rng.randrange(k), ctx.rng.choice([15.0, 65.0, 130.0, 180.0, 300.0])))
+    cf = CaseFile(ctx, "member_mutation", HDR, shard=120)
+    runs = []
+    for ms, idx, v in cases:
+        first, second, attrs_after = run_mutation_case(ms, idx, v)
+        ms2 = [dict(m, attrs=a) for m, a in zip(ms, attrs_after)]       # attributes as the objects hold them before/after (t_target untouched)
+        runs.append((first, second))
+        orig = "[" + "; ".join(coq_member(dict(m, attrs=[m["attrs"][0], attrs_after[i][1], attrs_after[i][2]])) for i, m in enumerate(ms)) + "]"
+        cf.add(f"judge_mutation {orig} {idx}%nat [{'; '.join(qlit(x) for x in attrs_after[idx])}] [{'; '.join(str(i) + '%nat' for i in second)}]")
+    agree = bad = mism = 0
+    for (ms, idx, v), (first, second), verdict in zip(cases, runs, cf.run()):
+        ctx.evaluations += 1
+        ctx.count("member_mutation")
+        if first != second or verdict[0] != 0:
+            ctx.nontrivial_case(("mut", tuple(tuple(m["attrs"]) for m in ms), idx, v))
+        if verdict[0] == 0:
+            agree += 1
+        elif verdict[0] == 3:
+            bad += 1
+            if bad == 1:
+                ctx.fail("stale-order-after-member-assignment", "iteration is not in sort-key order after a member's own t_supply was assigned "
+                         "(the cached order of the collection is not invalidated)", suite="member_mutation",
+                         input=dict(members=ms, assign=dict(member=idx, t_supply=v)), impl_output=dict(before=first, after=second),
+                         predicate="judge_mutation: sorted_b (keeps_front [0] true)")
+        else:
+            mism += 1
+            if mism == 1:
+                ctx.fail("collection-model-mismatch", "iteration after a member assignment differs from the model (cached order kept)",
+                         suite="member_mutation", input=dict(members=ms, assign=dict(member=idx, t_supply=v)),
+                         impl_output=dict(before=first, after=second), predicate="judge_mutation")
+    ctx.suite("member_mutation", cases=len(cases), agree=agree, mismatch=mism, property_false=bad, fragile_skipped=0)
+
+
 def run(ctx):
     stream_suite(ctx)
     coll_suite(ctx)
+    mutation_suite(ctx)
 
 
 def replay(ctx, data):
